@@ -122,6 +122,53 @@ Theorem C17_whole_image_roundtrip :
 Proof. exact whole_image_roundtrip. Qed.
 Print Assumptions C17_whole_image_roundtrip.
 
+(* ASCII INTEGERS IN THE MODEL.  '%d' formatting and int() are functions on digit lists (fmt_int,
+   parse_int), _arr2txt and np.loadtxt for integer datatypes are arr2txt_int and loadtxt_int (lines,
+   words, squeezed shape), and read_data_block uses loadtxt_int for the integer datatypes of the
+   generated table - the loadtxt oracle is only consulted for floats.  C17_parse_fmt_int: int('%d' % v) = v
+   for every integer v; C17_ascii_int_roundtrip: for uint8/int32/... arrays, 1-D or 2-D without a unit
+   axis, either index order, read_data_block returns the elements _arr2txt wrote. *)
+Theorem C17_parse_fmt_int : forall v, parse_int (fmt_int v) = Some v.
+Proof. exact parse_fmt_int. Qed.
+Print Assumptions C17_parse_fmt_int.
+
+Theorem C17_ascii_int_roundtrip :
+  forall b64dec zdecomp loadtxt (signed cm : bool) (a : da_attrs) (w : nat) (dimsn : list nat) (dataC : list Z) (text : str),
+  a_encoding a = enc_ascii ->
+  (a_endian a = end_big \/ a_endian a = end_little) ->
+  assoc (a_datatype a) dtype_table = Some (Z.of_nat w) -> (0 < w)%nat ->
+  assoc_b (a_datatype a) int_kind_table = Some signed ->
+  a_ind_ord a = (if cm then ord_f else ord_c) ->
+  a_dims a = map Z.of_nat dimsn ->
+  ((exists n, dimsn = [n] /\ (1 <= n)%nat) \/ (exists r c, dimsn = [r; c] /\ (2 <= r)%nat /\ (2 <= c)%nat)) ->
+  length dataC = nprod dimsn ->
+  Forall (fun z => 0 <= z < pow256 w) dataC ->
+  arr2txt_int signed w dimsn dataC = Some text ->
+  read_data_block b64dec zdecomp loadtxt a (data_arg text) = Ok dataC.
+Proof. exact ascii_int_roundtrip. Qed.
+Print Assumptions C17_ascii_int_roundtrip.
+
+(* the whole image with Base64 arrays of any type AND ASCII integer arrays, no decoding premise *)
+Theorem C17_whole_image_roundtrip_all :
+  forall (b64enc : list Z -> str) (b64dec : str -> option (list Z))
+         (zcomp : list Z -> list Z) (zdecomp : list Z -> option (list Z))
+         (loadtxt : Z -> str -> option (list nat * list Z)),
+  (forall x, b64dec (b64enc x) = Some x) -> (forall x, zdecomp (zcomp x) = Some x) ->
+  forall (i : wimage) (evs : list event),
+    Forall (fun d => written_da b64enc zcomp loadtxt d \/ written_ascii_int loadtxt d) (wi_das i) ->
+    merge evs = merge (image_events i) ->
+    parse b64dec zdecomp loadtxt evs = Ok (norm_image i).
+Proof. exact whole_image_roundtrip_all. Qed.
+Print Assumptions C17_whole_image_roundtrip_all.
+
+Example C17_ascii_int_nonvacuous :
+  arr2txt_int true 4 [2%nat; 3%nat] [0; 1; 4294967295; 3; 4; 2147483648]
+  = Some [48;32;49;32;45;49;10;51;32;52;32;45;50;49;52;55;52;56;51;54;52;56] /\
+  loadtxt_int true 4 [48;32;49;32;45;49;10;51;32;52;32;45;50;49;52;55;52;56;51;54;52;56]
+  = Some ([2%nat; 3%nat], [0; 1; 4294967295; 3; 4; 2147483648]) /\
+  loadtxt_int false 1 [55;10;50;53;53] = Some ([2%nat], [7; 255]) /\ loadtxt_int false 1 [50;53;54] = None.
+Proof. repeat split; vm_compute; reflexivity. Qed.
+
 (* the same for any data-array encoding (ASCII included) when the decoding of each Data text is
    given as a premise instead of derived: da_ok = loadtxt reads the transform, read_data_block
    reads the elements *)
